@@ -1282,7 +1282,7 @@ pub fn c12_case(seed: u64, idx: u64) -> CaseOut {
 pub fn c14_run(ctx: &Ctx) -> Summary {
     let seed = ctx.seed;
     let mut s = Summary::default();
-    let nfiles = ctx.n(48, 160) as usize;
+    let nfiles = ctx.n(48, 400) as usize;
     let files: Vec<FileCase> = (0..nfiles as u64).map(|i| file_case(seed ^ 0x14, i, 12000)).collect();
     let streams_: Vec<streams::Case> = (0..nfiles as u64).map(|i| streams::case(seed ^ 0x1414, i, 12000, true)).collect();
     // sequential reference
@@ -1390,7 +1390,7 @@ pub fn c14_run(ctx: &Ctx) -> Summary {
 
 pub fn c14_child(ctx: &Ctx) {
     let seed = ctx.seed;
-    let nfiles = ctx.n(48, 160) as usize;
+    let nfiles = ctx.n(48, 400) as usize;
     for i in 0..nfiles {
         let f = file_case(seed ^ 0x14, i as u64, 12000).bytes;
         let a = match guarded(|| expand_zlib_chunks(&f, 0)) {
@@ -1433,7 +1433,7 @@ pub fn run(ctx: &Ctx, prop: &str) -> (Summary, String, String) {
             merge(&mut s, run_cases(ctx, corpus.len() as u64, |i| c01_bytes(&corpus[i as usize].0, &corpus[i as usize].1, true)));
             let maxlen = if ctx.thorough() { 3 } else { 2 };
             merge(&mut s, exhaustive_short(ctx, maxlen, |d| c01_bytes(d, "exhaustive", false)));
-            let n = ctx.n(1500, 15000);
+            let n = ctx.n(1500, 60000);
             merge(&mut s, run_cases(ctx, n, |i| {
                 let fc = file_case(seed ^ 0x01, i, *[3000usize, 3000, 20000, 70000].get((i % 4) as usize).unwrap());
                 c01_bytes(&fc.bytes, &fc.label, i % 4 == 0)
@@ -1464,12 +1464,12 @@ pub fn run(ctx: &Ctx, prop: &str) -> (Summary, String, String) {
             (s, "files assembled from zlib/gzip/zip/PNG-IDAT wrappers around streams of 4 real compressors and the independent generator, with junk and signature look-alikes, then truncated / bit-flipped / mutated; truncation at every offset of the tail of structured files; all byte strings of length <= 2 (quick) / <= 3 (thorough); every 4th file also through compress_zstd/decompress_zstd. Non-trivial = more than 4 bytes; distinct by file digest (expanded and literal-only counted apart).".into(), String::new())
         }
         "C06" => {
-            let n = ctx.n(1200, 6000);
+            let n = ctx.n(1200, 30000);
             merge(&mut s, run_cases(ctx, n, |i| c06_case(seed, i)));
             (s, "accepted streams with > 1024 bytes of plaintext x {4 zlib headers, 16 gzip flag subsets with random field contents, zip name/extra lengths, 4 IDAT chunkings} x prefixes/suffixes (empty, junk, look-alikes); premise 'no other acceptable stream overlaps' evaluated on the scanner's own probes. Non-trivial = premise held; distinct by file digest.".into(), String::new())
         }
         "C13" => {
-            let n = ctx.n(500, 2500);
+            let n = ctx.n(500, 12000);
             let next = std::sync::atomic::AtomicU64::new(0);
             let acc = std::sync::Mutex::new(Vec::new());
             std::thread::scope(|sc| {
@@ -1516,12 +1516,12 @@ pub fn run(ctx: &Ctx, prop: &str) -> (Summary, String, String) {
             (s, "containers of the C01 generator that round-trip unfragmented x read schedules (1-byte, 1..7, large, with Interrupted) x write schedules (same, plus zero-length writes) x a hard error at every source/sink offset for containers <= 64 bytes and at sampled offsets otherwise. Checked: no panic; no error delivered => Ok and identical output; error delivered => Err and sink is a prefix. Non-trivial = container longer than the version byte; distinct by (container, schedules, fault offsets).".into(), String::new())
         }
         "C11" => {
-            let n = ctx.n(500, 2500);
+            let n = ctx.n(500, 12000);
             merge(&mut s, run_cases(ctx, n, |i| c11_case(seed, i)));
             (s, "files of the C01 generator x capacities {size, size+1, size+k} (must return F) and {0, size-1, random < size} (must be Err) where size = expanded length measured per file; non-frames (the file itself, empty, half a frame, random bytes, frame with damaged magic). Non-trivial = file that the plain container path round-trips; distinct by file digest.".into(), String::new())
         }
         "C12" => {
-            let n = ctx.n(400, 2000);
+            let n = ctx.n(400, 10000);
             // guard-byte checks are per call; run single-threaded per case but cases in parallel
             merge(&mut s, run_cases(ctx, n, |i| c12_case(seed, i)));
             (s, "files of the C01 generator through WrapperCompressZip / WrapperDecompressZip with 64 guard bytes on both sides of the output buffer; capacities 0, 1, need-1, need, need+1, random below need (every capacity for outputs <= 48 bytes), for both calls; random non-container bytes as decompress input. Non-trivial = compress succeeded with a large buffer; distinct by file digest.".into(), String::new())
